@@ -12,7 +12,7 @@ META = {
 def run(run):
     q = run.tier == "quick"
     run.obligations_for(["Csvq.Props.C20"])
-    run.stream("c01", 150 if q else 4000, seed_offset=100, model="C01", timeout=3000)
+    run.stream("c01", 500 if q else 4000, seed_offset=100, model="C01", timeout=3000)
     if not q:
         run.stream("c01", 3000, seed_offset=101, model="C01", timeout=3000)
     return run.finish(
